@@ -265,6 +265,11 @@ static void history_qs(long caseno, bool is_stack) {
             bool is_str = MN && M[0].d[M[0].n - 1] == 0 && strlen((char *)M[0].d) + 1 == M[0].n; bool is_int = MN && M[0].n == 8;
             int api = (int)rng_below(&R, 3); if (api == 1 && !is_str) api = 0; if (api == 2 && !is_int) api = 0; if (MN == 0 && api == 2) api = 0;
             vf_log("get[%d] n=%d", api, MN);
+            if (MN && !is_str && rng_chance(&R, 1, 3)) {   /* getstr of an element that is not a C string: whatever text comes back, it is a read - the stored element must not change */
+                char *t = QS(Q->getstr(Q), S->getstr(S)); if (!t) judge("C09", "getstr-null", "getstr returned NULL with %d elements", MN); free(t);
+                size_t z = 0; void *g = QS(Q->get(Q, &z, false), S->get(S, &z, false));
+                if (!g || z != M[0].n || memcmp(g, M[0].d, z)) judge("C09", "read-modified-element", "after getstr() the front element is %s, it was %s", vf_hex(g, g ? z : 0), vf_hex(M[0].d, M[0].n));
+                vf_count("getstr_on_raw_element", 1); }
             if (api == 2) { int64_t v = QS(Q->getint(Q), S->getint(S)); int64_t e; memcpy(&e, M[0].d, 8); if (v != e) judge("C09", "get-front", "getint returned %" PRId64 " expected %" PRId64, v, e); }
             else { bool newmem = api == 1 ? true : rng_chance(&R, 1, 2); size_t sz = 0;
                    void *d = api == 1 ? (void *)QS(Q->getstr(Q), S->getstr(S)) : QS(Q->get(Q, &sz, newmem), S->get(S, &sz, newmem));
